@@ -121,3 +121,67 @@ Theorem C02_nonvacuous_history :
   /\ canon (run (init [1; 2; 3]) [HInsert 0 1; HInsert 0 2; HFail 3; HFinalize; HRemoveJob 0 1; HPrepare; HInsert 1 3; HInsert 1 1; HFinalize])
      = ([[2]; [1; 3]], [], []).
 Proof. split; [cbn; intuition|vm_compute; reflexivity]. Qed.
+
+(* ---------------------------------------------------------------------------------------------------------------------------
+   ROUND FOUR (Spec/ValidX.v): features the end-to-end generator did not produce before.  The clauses above keep their meaning;
+   the rules below are evaluated in addition (`ValidX.accounted4` = accounted_b ++ the new rules) on every returned document. *)
+From VRP Require Import Spec.ValidX Proofs.ValidXP.
+
+(* REPLACEMENT tasks / MIXED jobs (jobs.md "Mixing job tasks": "The order is not specified except pickups must be scheduled
+   before any delivery, replacement or service"): the checker `mixed_viols` reports nothing iff in every tour, for every plan
+   job, no pickup of the job is served after a delivery, replacement or service of that job *)
+Theorem C02_mixed_order_checker_sound_complete : forall P S, mixed_viols P S = [] <-> MixedOrdered P S.
+Proof. exact mixed_viols_nil. Qed.
+
+Theorem C02_mixed_order_b_iff : forall acts, mixed_order_b acts = true <-> PickupsBeforeAll acts.
+Proof. exact mixed_order_b_iff. Qed.
+
+(* it contains the clause "pickups before deliveries" of the statement *)
+Theorem C02_mixed_order_implies_pickups_first : forall acts, PickupsBeforeAll acts -> PickupsFirst acts.
+Proof. exact mixed_implies_pickups_first. Qed.
+
+(* non-vacuity: a document that serves a job with a pickup AND a replacement task (kind 3) is accepted by the whole checker;
+   the same tour with the replacement served before the pickup of the same job is rejected with exactly [AJobMixedOrder 3] *)
+Theorem C02_nonvacuous_replacement :
+  valid_b ex_Pr ex_Sr ++ mixed_viols ex_Pr ex_Sr = []
+  /\ valid_b ex_Pr ex_Sr_bad ++ mixed_viols ex_Pr ex_Sr_bad = [AJobMixedOrder 3]
+  /\ MixedOrdered ex_Pr ex_Sr /\ ~ MixedOrdered ex_Pr ex_Sr_bad.
+Proof. exact (conj (proj1 ex_replacement) (conj (proj1 (proj2 ex_replacement)) ex_replacement_mixed)). Qed.
+
+(* REQUIRED BREAKS (vehicles.md; a problem's required breaks live in ValidX.xproblem next to the unchanged pproblem): the clause
+   "every break ... that appears corresponds to a distinct one defined for that very vehicle shift" for the break activities and
+   the stops without location of a tour whose shift defines required breaks: they can be assigned to DISTINCT required breaks of
+   the shift (reported length = the break's duration, reported start inside [earliest, latest], relative to the tour's departure
+   for an offset time) and their intervals do not overlap - iff the checker says so *)
+Theorem C02_required_breaks_distinct_defined : forall X t, rbreaks_ok X t = true <-> RBreaksDefined X t.
+Proof. exact rbreaks_ok_iff. Qed.
+
+Theorem C02_required_breaks_checker_sound_complete : forall X S,
+  rbreak_viols X S = [] <-> forall t, In t (sl_tours S) -> RBreaksDefined X t.
+Proof. exact rbreak_viols_nil. Qed.
+
+(* so such a tour never reports more breaks than its shift defines *)
+Theorem C02_required_breaks_at_most_defined : forall X t, RBreaksDefined X t -> has_rb X t = true ->
+  (length (break_acts t) <= length (rbreaks_of X t))%nat.
+Proof. intros X t H Hrb. eapply GAssign_length. exact (proj1 (H Hrb)). Qed.
+
+(* what runs on every document, `accounted4` = Valid.accounted_b on the document without its required-break activities and
+   stops ++ the rule above ++ the rule for mixed jobs; for a problem without required breaks it is accounted_b itself plus the
+   rule for mixed jobs: the clauses and theorems above keep their meaning *)
+Theorem C02_no_required_breaks_is_accounted_b : forall P S, accounted4 X0 P S = accounted_b P S ++ mixed_viols P S.
+Proof. exact accounted4_X0. Qed.
+
+(* non-vacuity: a tour whose required break interrupts the service of a job (a break activity inside the stop) and one whose
+   break is taken while driving (a stop without location) are accepted by the WHOLE round-four checker; the first document
+   judged against another break definition, and the second with its break reported twice (finding C02-F3: as a stop without
+   location and as an activity of the next stop) give exactly [ARequiredBreak 0] *)
+Theorem C02_nonvacuous_required_break :
+  valid4 ex_Xq ex_P ex_Sq = [] /\ valid4 ex_Xt ex_P ex_St = []
+  /\ RBreaksDefined ex_Xq (hd ex_tour (sl_tours ex_Sq)) /\ break_acts (hd ex_tour (sl_tours ex_Sq)) <> []
+  /\ accounted4 ex_Xt ex_P ex_Sq = [ARequiredBreak 0]
+  /\ accounted4 ex_Xt ex_P ex_St_twice = [ARequiredBreak 0].
+Proof.
+  split; [exact (proj1 ex_required_break)|]. split; [exact (proj1 (proj2 ex_required_break))|].
+  split; [exact (proj1 ex_required_break_defined)|]. split; [exact (proj1 (proj2 ex_required_break_defined))|].
+  split; [exact (proj2 (proj2 (proj2 (proj2 ex_required_break))))|exact ex_required_break_twice].
+Qed.
